@@ -6,6 +6,7 @@ import (
 	"encoding/json"
 	"fmt"
 	"reflect"
+	"strings"
 )
 
 // overlay returns old overlaid key by key with neu (maps merge, everything else replaces).
@@ -173,6 +174,56 @@ func oracleC13(x *Exec, so *StepObs) {
 				return // (tainted: a null given to an earlier reuse-values upgrade of this chain; what it leaves behind is not specified)
 			}
 			x.Sim.Probe("c13-defaults-from-history")
+			// the subchart's own defaults are chart defaults too: where neither the recorded user values nor the parent's
+			// defaults say anything about a key of the subchart, the value in force at the deployed revision stays
+			if !hasNull(want) && !hasNull(old) && !hasNull(neu) {
+				for ci := range x.Plan.Charts {
+					pc := &x.Plan.Charts[ci]
+					if ci != c13InForceChart[dep[0]] || len(pc.Subcharts) == 0 || pc.Subcharts[0].Name != "sub" {
+						continue
+					}
+					seen := probeValuesNamed(lr.Manifest, x.Plan.Namespace, "sub-probe")
+					if _, parentSays := pc.Values["sub"]; seen == nil || parentSays {
+						break
+					}
+					userSub, _ := want["sub"].(map[string]interface{})
+					for _, path := range [][]string{{"s"}, {"t", "u"}, {"t", "w"}} {
+						var u, sd, sv interface{} = userSub, map[string]interface{}(pc.Subcharts[0].Values), map[string]interface{}(seen)
+						userSays := false
+						for i, k := range path {
+							if um, ok := u.(map[string]interface{}); ok {
+								if v, has := um[k]; has {
+									u = v
+									if _, isMap := v.(map[string]interface{}); !isMap || i == len(path)-1 {
+										userSays = true
+									}
+								} else {
+									u = nil
+								}
+							} else if u != nil {
+								userSays = true
+							}
+							sd = getMapAny(sd)[k]
+							sv = getMapAny(sv)[k]
+						}
+						if userSays || sd == nil {
+							continue
+						}
+						x.Res.Checks++
+						if !reflect.DeepEqual(normJSON(sd), normJSON(sv)) {
+							decl := "declared-subchart"
+							if pc.Subcharts[0].Undeclared {
+								decl = "undeclared-subchart"
+							}
+							x.Violate(Violation{"C13", "subchart-defaults-stay-in-force", op.Op, mode + ":" + decl + "@" + x.Plan.Backend, fmt.Sprintf("mode %s: subchart key %s is seen as %s; the default in force at deployed revision %d (chart version %s) is %s", mode, strings.Join(path, "."), js(sv), dep[0], pc.Version, js(sd)), so.Index})
+							x.stop = true
+							return
+						}
+						x.Sim.Probe("c13-subchart-defaults-judged")
+					}
+					break
+				}
+			}
 		} else {
 			defaults = x.Plan.Charts[op.Chart].Values
 		}
@@ -310,7 +361,11 @@ func probeValuesNamed(manifest, ns, name string) map[string]interface{} {
 // c13DefaultsInForce replays the history before step so and returns, per revision, the chart defaults that are in
 // force at it according to the statement: the defaults of the chart version it was made from, except that a revision
 // made with reuse-values keeps those of the then deployed revision and a rollback keeps those of its target.
+var c13InForceChart map[int]int // side result of c13DefaultsInForce: per revision, the index of the chart version whose defaults are in force
+
 func c13DefaultsInForce(x *Exec, so *StepObs) (map[int]map[string]interface{}, map[int]bool) {
+	idx := map[int]int{}
+	c13InForceChart = idx
 	inForce := map[int]map[string]interface{}{}
 	tainted := map[int]bool{}
 	curDep := 0
@@ -337,14 +392,17 @@ func c13DefaultsInForce(x *Exec, so *StepObs) (map[int]map[string]interface{}, m
 		switch op.Op {
 		case "install":
 			inForce[created] = x.Plan.Charts[op.Chart].Values
+			idx[created] = op.Chart
 		case "upgrade":
 			if op.ReuseValues && !op.ResetValues {
 				if d, ok := inForce[curDep]; ok {
 					inForce[created] = d
+					idx[created] = idx[curDep]
 				}
 				tainted[created] = tainted[created] || tainted[curDep]
 			} else {
 				inForce[created] = x.Plan.Charts[op.Chart].Values
+				idx[created] = op.Chart
 			}
 		case "rollback":
 			t := op.Revision
@@ -353,6 +411,7 @@ func c13DefaultsInForce(x *Exec, so *StepObs) (map[int]map[string]interface{}, m
 			}
 			if d, ok := inForce[t]; ok {
 				inForce[created] = d
+				idx[created] = idx[t]
 			}
 			tainted[created] = tainted[created] || tainted[t]
 		default:
@@ -471,12 +530,14 @@ func genC13(seed, index uint64, tier string) *Plan {
 	}
 	withSub := g.Chance(0.4)
 	if withSub {
-		// a subchart with its own defaults (also for a global) and its own probe
+		// a subchart with its own defaults (also for a global) and its own probe; sometimes only vendored under charts/
+		// without a dependencies entry (its defaults then reach the parent's values by another route)
+		undeclared := g.Chance(0.35)
 		for v := range p.Charts {
 			sc := SubchartSpec{Name: "sub", Values: map[string]interface{}{
 				"s": g.Word(), "t": map[string]interface{}{"u": fmt.Sprint("sub-default-", v), "w": float64(v)},
 				"global": map[string]interface{}{"gk": fmt.Sprint("sub-global-default-", v)},
-			}}
+			}, Undeclared: undeclared}
 			sc.Slots = []ResSlot{{Kind: "ConfigMap", Name: "sub-probe", File: "subprobe.yaml", Marker: g.Marker(), Data: map[string]string{"values": "$$json"}}}
 			p.Charts[v].Subcharts = append(p.Charts[v].Subcharts, sc)
 			if g.Chance(0.4) {
@@ -562,4 +623,9 @@ func genC13(seed, index uint64, tier string) *Plan {
 	p.Policy = "uniform"
 	p.Schedule = g.Schedule(16)
 	return p.Clone()
+}
+
+func getMapAny(v interface{}) map[string]interface{} {
+	m, _ := v.(map[string]interface{})
+	return m
 }
